@@ -356,3 +356,64 @@ func zzInodeOf(name string) int {
 	}
 	return 0
 }
+
+// C12 (snapshots a revert left behind): after a revert the snapshots above the target stay
+// in the directory but are no longer part of the chain; later operations may remove what
+// they hung below.  Whatever is asked for then - a revert to such a left-behind snapshot,
+// to a member of the chain, to an unknown name - either succeeds with a well-formed chain
+// or is refused with nothing changed, and the directory reopens to the same chain.
+func ZZ_C12_LeftBehindSnapshot() {
+	fs := zzInstallFS()
+	r, err := zzOpenReplica()
+	zzAssume(err == nil)
+	r.mode = types.RW
+	for _, n := range []string{"a", "b", "c"} {
+		zzAssume(r.Snapshot(n, zzNondetBool("user."+n), "t") == nil)
+	}
+	rn, rerr := r.Revert("volume-snap-b.img", "t")
+	zzAssume(rerr == nil && rn != nil)
+	r = rn
+	r.mode = types.RW
+	zzAssume(r.Snapshot("d", true, "t") == nil)
+	if zzNondetBool("parent-of-the-left-behind-snapshot-removed") {
+		zzAssume(r.RemoveDiffDisk("volume-snap-b.img") == nil)
+	}
+	zzWellFormed("C12.left-behind.initial", r)
+	before := zzMemDigest(r)
+	target := zzConcStr(zzPick("target", "volume-snap-c.img", "volume-snap-b.img", "volume-snap-a.img", "volume-snap-d.img", "c", "volume-snap-nosuch.img"))
+	op := zzConcretize(zzChoice("op", 3))
+	var oerr error
+	opname := ""
+	switch op {
+	case 0:
+		opname = "Revert"
+		r2, e := r.Revert(target, "t")
+		oerr = e
+		if e == nil && r2 != nil {
+			r2.mode = types.RW
+			r = r2
+		}
+	case 1:
+		opname = "RemoveDiffDisk"
+		oerr = r.RemoveDiffDisk(target)
+	default:
+		opname = "PrepareRemoveDisk"
+		_, oerr = r.PrepareRemoveDisk(target)
+	}
+	after := zzMemDigest(r)
+	zzWellFormed("C12.left-behind.after-"+opname, r)
+	if oerr != nil {
+		zzReach("C12.left-behind.refused")
+		zzAssert(zzSameAttrs(before, after), "C12.left-behind.refused-"+opname+"-changed-the-chain")
+	} else {
+		zzReach("C12.left-behind.accepted")
+	}
+	fs.Revive()
+	rr, rerr2 := zzOpenReplica()
+	zzAssert(rerr2 == nil && rr != nil, "C12.left-behind.reopen-failed-after-"+opname)
+	if rr != nil {
+		zzAssert(zzSameAttrs(zzMemDigest(rr), after), "C12.left-behind.reopen-sees-different-chain-after-"+opname)
+		zzWellFormed("C12.left-behind.reopened", rr)
+	}
+	zzReach("C12.left-behind.done")
+}
